@@ -688,6 +688,29 @@ def check_function(prog, spec):
                 work.append((frm, to, path, seg, conds))
         except grpdom.Unsupported as e:
             raise bm.AnalysisBroken('R-SCHEME cannot model %s (%s -> %s): %s' % (spec['fn'], frm, to, e))
+    # a group-valued local that the tree the tables were written for does not have, and whose value ENTERS a segment (it is carried from
+    # an earlier segment) and reaches an output there, is a new accumulator: the per-segment effects of the tables - "this iteration
+    # updates the output by this term" - no longer describe where the terms are, correct or not (a deferred sum folded in at the end).
+    from . import normalise
+    base_locals = normalise.baseline_locals()
+    if base_locals is not None:
+        known = {n_ for (q_, n_) in base_locals if q_ == spec['fn']}
+        for (frm, to, path, seg, conds) in work:
+            if seg is None:
+                continue
+            for l, gv in dict(seg.effects()).items():
+                if not isinstance(gv, Elt):
+                    continue
+                is_out = any(l == o.rstrip('.') or l.startswith(o) or l.startswith(o.rstrip('.') + '[') for o in spec['outputs'])
+                if not is_out:
+                    continue
+                for b in gv.t:
+                    if isinstance(b, str) and b.startswith('L:'):
+                        nm = b[2:].split('.')[0].split('[')[0]
+                        if nm and nm not in known and nm in names:
+                            raise bm.AnalysisBroken('R-SCHEME: %s accumulates into the new local `%s` across loop segments and folds it into %s '
+                                                    'later; the segment tables of the construction describe per-iteration updates of the outputs '
+                                                    'and have no verdict on a deferred accumulation' % (spec['fn'], nm, l))
     for (frm, to, path, seg, conds) in work:
         if seg is None:
             continue
